@@ -16,6 +16,11 @@ mod exm_max2sat;
 // the modules of the max2sat example (compiled in by `eng_exmodel`) name one another `crate::model`, `crate::data`, …
 #[allow(unused_imports)]
 use exm_max2sat::ex_max2sat::{data, errors, heuristics, model, relax};
+mod exm_psp;
+mod exm_alp;
+// `model.rs` of the alp example (compiled in by `exm_alp`) names its reader's module `crate::io_utils`
+#[allow(unused_imports)]
+use exm_alp::ex_alp::io_utils;
 mod eng_domcyc;
 mod eng_cacheorder;
 mod exgen;
